@@ -256,3 +256,20 @@ reg(
     TECHNIQUE="history monitoring with unique ids embedded in every response (prefix oracle) + server-side cleanliness monitor at request arrival",
     REQUIRED_MONITORS={"quick": {"history": 5000, "body_prefix": 10000, "clean_connection": 5000}, "thorough": {"history": 10**5, "body_prefix": 10**5}},
 )
+
+reg(
+    "C19",
+    RULE="(timeout configuration, placement, durations, scheme, request sequence): (total, connect, read) over {unset, None, 0.5, 2, 10}^3 and legacy single numbers, given to the pool, to the request, or both (request must win; the next request falls back to the pool's); connect durations {0,0.3,1,5,20}, send durations {0,0.2,1.5}, response durations {0,0.4,1.5,3,9,12,30} on a virtual clock; http pools (connect inside request), https pools with a fake TLS layer (connect inside validation) and https-through-proxy tunnels; 2-3 requests per pool so that fresh and reused connections and a shared pool-level Timeout are covered; plus 12 invalid values x 3 fields x Timeout / pool / request placements; a case is that tuple; all non-trivial",
+    ASSUMPTIONS=COMMON_ASSUMPTIONS + [
+        "'unset' means the system default (socket.getdefaulttimeout(), None here); values are compared as recorded at the dial / at settimeout() with a 1e-6 tolerance",
+        "for CONNECT tunnels only the timeout handed to the dial (to the proxy) is judged against min(connect, total) of the request in effect; the tunnel is established before the per-request clock starts, so its duration is not part of 'time already spent connecting'",
+        "float('nan') and infinity are not in the invalid set (the statement lists zero, negatives, booleans and non-numbers)",
+    ],
+    SHARDS={"quick": 8, "thorough": 16},
+    BUDGET={"quick": 45, "thorough": 300},
+    EXHAUSTIVE={"quick": False, "thorough": True},
+    LEVEL_TEXT="Runtime monitoring on a virtual clock: the timeout handed to every dial and the last settimeout() before every response wait are recorded by the in-memory socket and compared with the reference arithmetic; a zero remaining budget must raise ReadTimeoutError without any recv(); no negative value may ever be set; invalid values must be rejected with ValueError before any I/O; a pool-level Timeout object must never have its own clock started.",
+    LEVEL_NOTE="Trusts the reference arithmetic (10 lines) and the virtual clock substitution for time.monotonic in urllib3.util.timeout.",
+    TECHNIQUE="runtime monitoring of socket timeout values on a virtual clock against reference arithmetic (full configuration grid)",
+    REQUIRED_MONITORS={"quick": {"request": 2000, "connect_timeout": 1000, "read_timeout": 1000, "invalid_rejected": 30}, "thorough": {"request": 20000, "connect_timeout": 10000, "read_timeout": 10000, "invalid_rejected": 30}},
+)
